@@ -217,6 +217,19 @@ class ClassInterp:
                 raise Reject("_type_checker: unpacking")
             for e, x in zip(t.elts, v):
                 self.assign(e, x, env)
+        elif isinstance(t, ast.Tuple) and sum(isinstance(e, ast.Starred) for e in t.elts) == 1 \
+                and all(isinstance(e.value if isinstance(e, ast.Starred) else e, ast.Name) for e in t.elts):
+            # a, b, *rest = seq: rest is a fresh list of the items not taken by the other names
+            i = [isinstance(e, ast.Starred) for e in t.elts].index(True)
+            after = len(t.elts) - i - 1
+            if not isinstance(v, (tuple, list)) or len(v) < len(t.elts) - 1:
+                raise Reject("_type_checker: unpacking")
+            v = list(v)
+            for e, x in zip(t.elts[:i], v[:i]):
+                self.assign(e, x, env)
+            self.assign(t.elts[i].value, v[i:len(v) - after], env)
+            for e, x in zip(t.elts[i + 1:], v[len(v) - after:]):
+                self.assign(e, x, env)
         else:
             raise Reject("_type_checker: assignment target `%s`" % ast.unparse(t))
 
